@@ -13,7 +13,8 @@ import (
 // The trees of a case come from the REAL builder (appdefcompat.VerifBuildTree, export_verif.go,
 // build tag verif) through realTree. transcribedTree below is an independent transcription of
 // buildTree (same type switches, exported accessors and NodeName constants) kept only as a
-// cross-check: runCase fails the run if the two ever differ.
+// cross-check: a difference is recorded in the trace (t_treediff, makes `agrees` false) and the
+// run goes on - the observed errors are still judged by the oracle.
 type Node struct {
 	Name  string
 	Val   any // nil | string | bool | appdef.DataKind
@@ -36,17 +37,23 @@ func convert(t *ac.CompatibilityTreeNode) *Node {
 	return n
 }
 
-// equal: same names, values (dynamic type and content) and children, in order
-func (n *Node) equal(o *Node) bool {
-	if n.Name != o.Name || fmt.Sprintf("%T:%v", n.Val, n.Val) != fmt.Sprintf("%T:%v", o.Val, o.Val) || len(n.Props) != len(o.Props) {
-		return false
+func (n *Node) same(o *Node) bool {
+	return n.Name == o.Name && fmt.Sprintf("%T:%v", n.Val, n.Val) == fmt.Sprintf("%T:%v", o.Val, o.Val)
+}
+
+// firstDiff returns the path (root name first) of the first node at which the two trees differ
+// in name, value (dynamic type and content) or number of children; nil when they are equal
+func (n *Node) firstDiff(o *Node, at []string) []string {
+	here := append(append([]string{}, at...), n.Name)
+	if !n.same(o) || len(n.Props) != len(o.Props) {
+		return here
 	}
 	for i := range n.Props {
-		if !n.Props[i].equal(o.Props[i]) {
-			return false
+		if d := n.Props[i].firstDiff(o.Props[i], here); d != nil {
+			return d
 		}
 	}
-	return true
+	return nil
 }
 
 func nn(name string, val any, props ...*Node) *Node { return &Node{Name: name, Val: val, Props: props} }
